@@ -282,6 +282,11 @@ def f3_files(tier, daqmx=True, scaled=True):
     out.append(('special/strings', [G.seg([(A, ['FULL', 'String', 3, 0])]), G.seg([(A, ['FULL', 'String', 2, 9])], chunks=2)]))
     out.append(('special/padding', [G.seg([(A, _full('Int32', 2)), (B, _full('Int16', 1))], pad=3, chunks=2),
                                     G.seg([(A, ['SAME'])], newlist=False, pad=5)]))
+    out.append(('special/props-only-last', [G.seg([(A, _full('Int32', 2)), (B, _full('Int16', 1))], chunks=2),
+                                            G.seg([('/', ['NODATA'], [_sprop('closing', 'done')]), ("/'g'", ['NODATA'], [_uprop('n', 7)]),
+                                                   ("/'late'/'x'", ['NODATA'], [_sprop('unit', 'V')])])]))
+    out.append(('special/props-only-middle', [G.seg([(A, _full('Int32', 2))]), G.seg([(A, ['NODATA'], [_sprop('k', 'v')])], newlist=False),
+                                              G.seg([(A, ['SAME'])], newlist=False)]))
     out.append(('special/many-segments', [G.seg([(A, _full('Int32', 1)), (B, _full('Int16', 2))])] +
                 [G.seg([], meta=False, chunks=1 + (i % 2)) for i in range(7)]))
     return out
